@@ -21,6 +21,7 @@ func init() {
 			"C17.R1 role-pair conflicts on a field: write + concurrent access, no common mutex, not ordered by any of the listed mechanisms",
 			"C17.R2 sibling conflicts inside a multi-instance role: writes to a shared (captured) object or to a non-partitioned field",
 			"C17.R3 after a send of a pointer/slice/map the sending function does not store through it",
+			"C17.R3b a struct sent by value: every slice/map/pointer it holds (followed through interface boxes and struct locals) that was made before the send is not written through again, by the sender or a helper given the reference or the struct that holds it, on a way back to a send that does not re-make it",
 			"C17.R5 a map-typed local passed to or captured by a goroutine is not used with a write by the goroutine and, after the go statement, by its spawner",
 			"C17.R4 a slice stored into a message under construction is not a (re)slice of a slice held in a field of a long-lived object (definite views only)",
 		},
@@ -60,6 +61,7 @@ func runC17(p *Prog, r *Report) {
 	r.MinInstances["C17.R1"] = 200
 	r.MinInstances["C17.R2"] = 4
 	r.MinInstances["C17.R3"] = 10
+	r.MinInstances["C17.R3b"] = 3
 	r.MinInstances["C17.R4"] = 6
 	for _, ro := range e.Roles {
 		var names []string
@@ -205,6 +207,7 @@ func runC17(p *Prog, r *Report) {
 		}
 	}
 	c17R3(p, r)
+	c17R3b(p, r)
 	c17R4(p, r, e)
 	c17R5(p, r, e)
 }
@@ -464,6 +467,9 @@ func c17R4(p *Prog, r *Report, e *RaceEngine) {
 				}
 				if longLived(a) {
 					st := derefStruct(a.X.Type())
+					if fieldRemadeBefore(x, typeName(a.X.Type()), st.Field(a.Field).Name()) {
+						return fresh // made afresh earlier in this very call
+					}
 					where = ownerName(derefType(a.X.Type())) + "." + st.Field(a.Field).Name() + " (loaded at " + p.InstrPos(x) + ")"
 					return view
 				}
@@ -779,4 +785,182 @@ func c17R5(p *Prog, r *Report, e *RaceEngine) {
 	if n == 0 {
 		r.Notes = append(r.Notes, "C17.R5: no go statement passes or captures a map-typed local on this tree (the kept variant C17-9 is the positive example in the thorough tier)")
 	}
+}
+
+// ---- R3b: messages sent by value do not share a backing array the sender keeps writing ----------
+
+// c17R3b: a struct sent on a channel by value still shares whatever its slice, map and pointer
+// fields refer to.  When such a reference was made before the send and is not made afresh on the
+// way back to the next send, any later write through it (in the sender, or in a helper that is
+// handed the reference or the struct it sits in) reaches memory the receiver may still be
+// reading: the send orders nothing after it.  Found by following the sent value back through
+// interface boxes, struct locals and their field stores to the references it holds.
+func c17R3b(p *Prog, r *Report) {
+	isRef := func(t types.Type) bool {
+		switch t.Underlying().(type) {
+		case *types.Slice, *types.Map, *types.Pointer:
+			return true
+		}
+		return false
+	}
+	n := map[string]int{}
+	for _, fn := range p.LibFuncs() {
+		Instrs(fn, func(in ssa.Instruction) {
+			snd, ok := in.(*ssa.Send)
+			if !ok {
+				return
+			}
+			if _, isStruct := snd.X.Type().Underlying().(*types.Struct); !isStruct {
+				return
+			}
+			// references held by the message, and the struct locals whose content went into it
+			type held struct {
+				ref   ssa.Value
+				owner *ssa.Alloc
+				field string
+			}
+			var refs []held
+			seen := map[ssa.Value]bool{}
+			var collect func(v ssa.Value, d int)
+			collect = func(v ssa.Value, d int) {
+				if v == nil || seen[v] || d > 6 {
+					return
+				}
+				seen[v] = true
+				switch x := v.(type) {
+				case *ssa.MakeInterface:
+					collect(x.X, d+1)
+				case *ssa.UnOp:
+					if x.Op != token.MUL {
+						return
+					}
+					al, ok := x.X.(*ssa.Alloc)
+					if !ok {
+						return
+					}
+					if _, isStruct := x.Type().Underlying().(*types.Struct); !isStruct {
+						return
+					}
+					for _, ref := range *al.Referrers() {
+						fa, ok := ref.(*ssa.FieldAddr)
+						if !ok {
+							continue
+						}
+						fname := derefStruct(fa.X.Type()).Field(fa.Field).Name()
+						for _, r2 := range *fa.Referrers() {
+							st, ok := r2.(*ssa.Store)
+							if !ok || st.Addr != ssa.Value(fa) {
+								continue
+							}
+							if isRef(st.Val.Type()) {
+								if _, isC := st.Val.(*ssa.Const); !isC {
+									refs = append(refs, held{st.Val, al, fname})
+								}
+							} else {
+								collect(st.Val, d+1)
+							}
+						}
+					}
+				}
+			}
+			collect(snd.X, 0)
+			if len(refs) == 0 {
+				return
+			}
+			r.Fn(FuncName(fn))
+			base := "message of " + typeName(snd.X.Type()) + " sent in " + FuncName(fn)
+			n[base]++
+			key := fmt.Sprintf("%s #%d shares no reference the sender writes through afterwards", base, n[base])
+			bad := ""
+			for _, h := range refs {
+				def, _ := h.ref.(ssa.Instruction)
+				hits := ReachAvoiding(fn, in, func(x ssa.Instruction) bool { return def != nil && x == def }, func(x ssa.Instruction) bool {
+					switch y := x.(type) {
+					case *ssa.Store:
+						// through the reference itself, or through the field of the struct local that holds it
+						if reachesValue(y.Addr, h.ref) {
+							return true
+						}
+						return throughRefField(y.Addr, h.owner, h.field)
+					case *ssa.Call:
+						g := y.Call.StaticCallee()
+						if g == nil || !isModuleFn(g) || g.Blocks == nil || len(g.Params) != len(y.Call.Args) {
+							return false
+						}
+						for k, a := range y.Call.Args {
+							if a == h.ref || a == ssa.Value(h.owner) {
+								if writesThroughRefOf(g, k, a == h.ref, h.field) {
+									return true
+								}
+							}
+						}
+					}
+					return false
+				})
+				if len(hits) > 0 && bad == "" {
+					bad = fmt.Sprintf("the %s held in field %s of the message was made at %s, before this send, and is written through again at %s without being made afresh: successive messages share one backing store, which the receiving goroutine reads while the sender overwrites it", strings.TrimPrefix(fmt.Sprintf("%T", h.ref.Type().Underlying()), "*types."), h.field, p.InstrPos(def), p.InstrPos(hits[0]))
+				}
+			}
+			r.Check(bad == "", "C17.R3b", key, p.InstrPos(in), fmt.Sprintf("%d reference(s) held; none written through after the send without being re-made", len(refs)), bad)
+		})
+	}
+}
+
+// throughRefField: addr goes through a load of owner.field (the reference kept in a struct local).
+func throughRefField(addr ssa.Value, owner *ssa.Alloc, field string) bool {
+	for i := 0; i < 16; i++ {
+		switch x := addr.(type) {
+		case *ssa.FieldAddr:
+			addr = x.X
+		case *ssa.IndexAddr:
+			addr = x.X
+		case *ssa.Slice:
+			addr = x.X
+		case *ssa.UnOp:
+			if fa, ok := x.X.(*ssa.FieldAddr); ok && fa.X == ssa.Value(owner) && derefStruct(fa.X.Type()).Field(fa.Field).Name() == field {
+				return true
+			}
+			addr = x.X
+		default:
+			return false
+		}
+	}
+	return false
+}
+
+// writesThroughRefOf: g stores through its k-th parameter: through the parameter itself when it is
+// the reference (direct), or through a load of the named reference field of the struct it points to.
+func writesThroughRefOf(g *ssa.Function, k int, direct bool, field string) bool {
+	prm := g.Params[k]
+	found := false
+	Instrs(g, func(in ssa.Instruction) {
+		st, ok := in.(*ssa.Store)
+		if !ok || found {
+			return
+		}
+		addr := st.Addr
+		for i := 0; i < 16; i++ {
+			if direct && addr == ssa.Value(prm) && addr != st.Addr {
+				found = true
+				return
+			}
+			switch x := addr.(type) {
+			case *ssa.FieldAddr:
+				addr = x.X
+			case *ssa.IndexAddr:
+				addr = x.X
+			case *ssa.Slice:
+				addr = x.X
+			case *ssa.UnOp:
+				if fa, ok := x.X.(*ssa.FieldAddr); ok && !direct && fa.X == ssa.Value(prm) && derefStruct(fa.X.Type()).Field(fa.Field).Name() == field {
+					found = true
+					return
+				}
+				addr = x.X
+			default:
+				return
+			}
+		}
+	})
+	return found
 }
